@@ -7,7 +7,7 @@ from pathlib import Path
 from hypothesis import strategies as st
 
 from .. import env
-from ..driver import Excluded, HypPart, InvalidCase, Rec, Violation
+from ..driver import EnumPart, Excluded, HypPart, InvalidCase, Rec, Violation
 from ..model import dbdump
 from ..model import page as P
 
@@ -28,7 +28,9 @@ RULE = (
     "inspected: the page is never present unflagged with fewer notes than written.  (whitelist) directories of "
     "2-5 pages whose names are substrings of one another, some broken and whitelisted by `db create -f`, then "
     "pages are broken / fixed / edited and `db create` or `db reindex` must refuse iff a non-whitelisted page "
-    "became broken, and keep whitelist and index flags equal to the set of broken pages.  Non-trivial = class b/c "
+    "became broken, and keep whitelist and index flags equal to the set of broken pages.  (atheris, thorough tier "
+    "only) 16 coverage-guided libFuzzer campaigns (seeded with truncated repository pages / empty corpus) with the "
+    "same compile-level oracle inside the target; executions are added to evaluations.  Non-trivial = class b/c "
     "case with E, or class a case with a multi-line item; distinct by SHA-1 of the case."
 )
 ASSUMPTIONS = [
@@ -37,7 +39,7 @@ ASSUMPTIONS = [
 ]
 
 TOKENS = ["\n", "\n", " ", " ", "  ", "# ", "#", "- ", "o ", "x ", "~ ", "< ", "> ", "P1 ", "P9", "foo", "bar", "o", "x",
-          "240101", "123456", "999999", "240101#ab", "2024-01-01", "1230", "[[", "]]", "[[p]]", "[#g]", "[^l]", "[^x]",
+          "240101", "123456", "999999", "240101#ab", "2024-01-01", "2024-03-32", "2024-02-30.", "1230", "[[", "]]", "[[p]]", "[#g]", "[^l]", "[^x]",
           "[^X]", "[@r]", "[240101#ab]", "((e))", "((", "))", "k::v", "k::", "[k:: v w]", "[k::", ":: ", "::", "#t",
           "@c", "%p", "+j", "#", "@", "%", "+", "'", '"', "'q'", "https://x.y/z", "https://", "http", P.MARK[1] + " ",
           P.MARK[2] + " ", P.MARK[3] + " ", P.MARK[4] + " ", P.MARK[4], "  * ", "    - ", "      + ", "*", "-", "--",
@@ -49,7 +51,7 @@ _ODD_ITEMS = [
     "- a:: b\n  * 240101#00", "- foo\n  * \n  * k:: v", "- foo\n  * k::\n    - \n    - v", "- 240101 240101#ab",
     "- k:: ", "- foo ::\n  * 991231", "x 240101#ab\n  * 240102\n  * k:: v w", "- foo\n    - k::v\n      + k2::v",
     "- [k::", "- foo [k:: v", "o P1", "- [[a]] [^l] [#g] [@r]", "- 'k::v' \"x", "- foo\n  *\n  * k:: v",
-    "- [^x]", "- a [#o] b", "o [@x] foo", "- [^o]\n  * k:: v", "- [P1]", "- [[o]] [[x]] #o @x", "- [240101#a]", "- #\n- @ x",
+    "- 2024-03-32 foo", "o P1 2024-02-30", "- foo 2023-13-01 k::2024-02-30", "- [^x]", "- a [#o] b", "o [@x] foo", "- [^o]\n  * k:: v", "- [P1]", "- [[o]] [[x]] #o @x", "- [240101#a]", "- #\n- @ x",
     "- ((", "- [k::]", "- [::v]", "- k::[[a]]", "- https://", "- http://o.x/o/x", "x x x", "o o", "- [[a#]] [[#a]]",
 ]
 
@@ -276,6 +278,58 @@ def _still_broken(zdir) -> bool:
     return bool(P.independent_parse(data)[1])
 
 
+def check_atheris(case, rec: Rec) -> None:
+    """One libFuzzer campaign (child process) with the C08 oracle inside the target."""
+    import os
+    import shutil
+    import subprocess
+    import sys
+    import tempfile
+
+    verif = str(Path(__file__).resolve().parent.parent.parent)
+    deps = os.path.join(verif, ".deps")
+    if not os.path.isdir(os.path.join(deps, "atheris")):
+        subprocess.run([sys.executable, "-m", "pip", "install", "-q", "--no-index", "--find-links",
+                        "/opt/veriftools/wheels", "--target", deps, "atheris"],
+                       stdout=subprocess.DEVNULL, stderr=subprocess.DEVNULL)
+    if not os.path.isdir(os.path.join(deps, "atheris")):
+        rec.label("atheris-unavailable")
+        return
+    out = tempfile.mkdtemp(prefix="vz-c08-fuzz-", dir=env._TMP_ROOT)
+    try:
+        src = os.path.join(os.environ.get("VERIF_REPO", "/repo"), "src")
+        envv = dict(os.environ, PYTHONPATH=verif, VZ_C08_OPEN=",".join(sorted(rec.open_keys)))
+        try:
+            p = subprocess.run([sys.executable, "-m", "vz.fuzz_c08", src, out, str(case["runs"]), str(case["seed"]),
+                                case["corpus"]], stdout=subprocess.DEVNULL, stderr=subprocess.DEVNULL, env=envv,
+                               cwd=verif, timeout=case["timeout"])
+            code = p.returncode
+        except subprocess.TimeoutExpired:
+            code = "timeout"
+        execs = 0
+        if os.path.exists(os.path.join(out, "execs.txt")):
+            execs = int(open(os.path.join(out, "execs.txt")).read().strip() or 0)
+        rec.sub_evals += execs
+        rec.info["atheris_execs"] = execs
+        if os.path.exists(os.path.join(out, "crash.bin")):
+            data = open(os.path.join(out, "crash.bin"), "rb").read()
+            clause = open(os.path.join(out, "crash.txt")).read().strip()
+            small = {"cls": "c", "hex": data.hex(), "today": "2024-06-15", "index": False}
+            try:
+                check(small, Rec())
+            except Violation as v:
+                raise Violation(v.clause, "[found by atheris] " + v.detail, case=small, part="texts")
+            raise Violation("atheris:" + clause, f"input {data!r} (not reproduced by the Hypothesis-side oracle)",
+                            case=small, part="texts")
+        if code not in (0, "timeout"):
+            # libFuzzer's own crash artefacts (timeouts, OOM) are not property violations
+            rec.label(f"atheris-exit-{code}")
+        rec.label("atheris:" + case["corpus"])
+        rec.nontrivial = execs > 0
+    finally:
+        shutil.rmtree(out, ignore_errors=True)
+
+
 REQUIRED_LABELS = {"E": 0.15, "class-a": 0.1, "class-b": 0.1, "class-c": 0.05, "index-clause": 0.1}
 
 
@@ -285,7 +339,13 @@ def parts(tier):
     P.set_open({f["key"] for f in load_findings(ID) + load_findings("C01") + load_findings("C02")
                 if f.get("status") == "known"})
     quick = tier == "quick"
-    return [HypPart(name="texts", check=check, strategy=_case,
+    fuzz = []
+    if not quick:
+        seed = int(__import__("os").environ.get("VERIF_SEED", "1") or "1")
+        fuzz = [EnumPart(name="atheris", check=check_atheris, exhaustive=False, seconds=400,
+                         items=lambda: [{"runs": 2500, "seed": seed * 100 + i, "corpus": "seeded" if i % 2 == 0 else "empty",
+                                         "timeout": 240} for i in range(16)])]
+    return fuzz + [HypPart(name="texts", check=check, strategy=_case,
                     examples=110 if quick else 4000, seconds=42 if quick else 800),
             HypPart(name="whitelist", check=check_whitelist, strategy=_wl_case,
                     examples=30 if quick else 500, seconds=25 if quick else 400)]
